@@ -11,7 +11,7 @@
 static void str_ghosts(void)
 {
     GI0 = nondet_size_t(); GI1 = nondet_size_t(); GI2 = nondet_size_t(); ST_EXC = 0; ST_LIVE = 0; ST_FAULT = 0;
-    LF.calls = 0; LF.ret = NULL; TRF_CALLS = 0; TRF_RET = NULL; TRL_CALLS = 0; TRL_S = NULL; TRL_RET = 0; TRC_N = 0; TRC_A = NULL; TRC_B = NULL; TRC_R = 0; TRC_CI = 0;
+    LF.calls = 0; LF.ret = NULL; TRF_CALLS = 0; TRF_RET = NULL; TRL_CALLS = 0; TRL_S = NULL; TRL_RET = 0; TRC_N = 0; TRC_A = NULL; TRC_B = NULL; TRC_R = 0; TRC_CI = 0; TRC_CALLS = 0;
     FS_PROBE = NULL; FS_HIT = 0; TRF_PROBE = NULL; TRC_PROBE = NULL; CI_PROBE = NULL;
 }
 /* an arbitrary well-formed ST::string: symbolic size, symbolic bytes, short or heap storage */
@@ -152,6 +152,9 @@ void h_str_compare_cstr(void)
     else if (sel == 2) { r = ST_string_compare_n__pc_sz_case_sensitivity_t_k(&s, o, cnt, ci ? CI_ : CS); le = ls < cnt ? ls : cnt; re = rs < cnt ? rs : cnt; }
     else if (sel == 3) { ci = 1; r = ST_string_compare_ni__pc_sz_k(&s, o, cnt); le = ls < cnt ? ls : cnt; re = rs < cnt ? rs : cnt; }
     else { ci = 0; _Bool b = ST_string_op_eq__pc_k(&s, o); _Bool nb = ST_string_op_ne__pc_k(&s, o); r = b ? 0 : 1; __CPROVER_assert(b == !nb, "ST_string_operators_cstr.postcondition.1: != is the negation of =="); }
+    rs = isnull ? 0 : TRL_RET;   /* the C string's length is what length() reports for that pointer */
+    __CPROVER_assert(isnull || (TRL_CALLS >= 1 && TRL_S == o), "ST_string_compare_cstr.postcondition.0: the operand's length is its C-string length");
+    re = (sel == 2 || sel == 3) ? (rs < cnt ? rs : cnt) : rs;
     size_t mn = le < re ? le : re;
     __CPROVER_assert(TRC_A == s.m_buffer.m_chars && (isnull || TRC_B == o) && TRC_N == mn && TRC_CI == ci, "ST_string_compare_cstr.postcondition.1: compares the common prefix with the C string (a null pointer is the empty string)");
     int expect = TRC_R != 0 ? SIGN(TRC_R) : (le < re ? -1 : le > re ? 1 : 0);
